@@ -67,6 +67,9 @@ void mon_flag_name(int bit, const char *name);
 /* named counters summed over the run (max 96 distinct names; pointer-stable literals) */
 void mon_count(const char *name, uint64_t delta);
 void mon_count_max(const char *name, uint64_t value);
+/* set-valued observation: the driver reports the number of DISTINCT values seen per name over all processes
+ * (e.g. interleaving signatures, completion orders); main thread only */
+void mon_distinct(const char *name, uint64_t value);
 /* sample text for the evidence file; only recorded while mon_sampling() */
 bool mon_sampling(void);
 void mon_sample(const char *fmt, ...) __attribute__((format(printf, 1, 2)));
